@@ -319,3 +319,37 @@ func verifSpanOverlaps(sp errors.Span, text string, culprit string) bool {
 	}
 	return false
 }
+
+// verifCheckReportedSpansIn: like verifCheckReportedSpans for a module graph: every position is checked against the
+// text of the module its filename names.
+func verifCheckReportedSpansIn(an verifAnalysis, modules map[string]string) {
+	for _, e := range an.syntax {
+		text, known := modules[e.Span.Filename]
+		errors.VerifTag("message", errors.VerifNorm(e.Message))
+		errors.VerifAssert("syntax-error-names-a-module-of-the-graph", known)
+		if known {
+			ok := verifSpanValid(e.Span, text)
+			errors.VerifAssert("syntax-error-position-is-inside-the-text", ok)
+			if ok {
+				p, _ := errors.VerifPanics(func() { e.Display(text) })
+				errors.VerifAssert("syntax-error-renders", !p)
+			}
+		}
+		errors.VerifUntag("message")
+	}
+	for _, d := range an.diags {
+		text, known := modules[d.Span.Filename]
+		if !known {
+			continue // whole-program diagnostics carry no position
+		}
+		errors.VerifTag("message", errors.VerifNorm(d.Message))
+		ok := verifSpanValid(d.Span, text)
+		errors.VerifAssert("diagnostic-position-is-inside-the-text", ok)
+		if ok {
+			p, _ := errors.VerifPanics(func() { d.Display(text) })
+			errors.VerifAssert("diagnostic-renders", !p)
+		}
+		errors.VerifUntag("message")
+	}
+	errors.VerifReached("spans-checked")
+}
